@@ -246,7 +246,14 @@ func (m *c09MockEVM) TransactionReceipt(ctx context.Context, h common.Hash) (*ty
 	return nil, errC09Node
 }
 func (m *c09MockEVM) TransactionByHash(ctx context.Context, h common.Hash) (*types.Transaction, bool, error) {
-	return nil, false, ethereum.NotFound
+	m.n.mu.Lock()
+	defer m.n.mu.Unlock()
+	tx, ok := m.n.txs[h]
+	if !ok {
+		return nil, false, ethereum.NotFound
+	}
+	_, mined := m.n.receipts[h]
+	return tx, !mined, nil
 }
 
 func (n *c09Node) acceptTx(tx *types.Transaction) error {
@@ -337,6 +344,35 @@ func (n *c09Node) serveOne(ctx context.Context, rq c09Req, inBatch bool) (c09Res
 			return fail()
 		}
 		rs.Result = tx.Hash().Hex()
+	case "eth_getTransactionByHash":
+		var h common.Hash
+		if len(rq.Params) < 1 || json.Unmarshal(rq.Params[0], &h) != nil {
+			return fail()
+		}
+		n.mu.Lock()
+		tx, ok := n.txs[h]
+		_, mined := n.receipts[h]
+		n.mu.Unlock()
+		if !ok {
+			rs.Result = nil
+			break
+		}
+		raw, err := tx.MarshalJSON()
+		if err != nil {
+			return fail()
+		}
+		m := map[string]interface{}{}
+		if json.Unmarshal(raw, &m) != nil {
+			return fail()
+		}
+		if mined {
+			m["blockNumber"] = "0x1"
+			m["blockHash"] = common.HexToHash("0xb1").Hex()
+		} else {
+			m["blockNumber"] = nil
+			m["blockHash"] = nil
+		}
+		rs.Result = m
 	case "eth_getTransactionReceipt":
 		var h common.Hash
 		if len(rq.Params) < 1 || json.Unmarshal(rq.Params[0], &h) != nil {
